@@ -176,7 +176,10 @@ func ensureBuild(verbose bool) {
 		die(2, "%v", err)
 	}
 	copyDir := filepath.Join(scratchDir, "copy")
-	defer os.RemoveAll(copyDir)
+	keep := os.Getenv("VCHECK_KEEP") != "" // debugging: leave the instrumented copy and the harness build directory in place
+	if !keep {
+		defer os.RemoveAll(copyDir)
+	}
 	var lastErr string
 	for _, level := range []string{"full", "mid", "min"} {
 		os.RemoveAll(copyDir)
@@ -216,7 +219,9 @@ func ensureBuild(verbose bool) {
 		hdir := filepath.Join(scratchDir, "hbuild")
 		os.RemoveAll(hdir)
 		os.MkdirAll(hdir, 0o755)
-		defer os.RemoveAll(hdir)
+		if !keep {
+			defer os.RemoveAll(hdir)
+		}
 		hsrc, _ := filepath.Glob(filepath.Join(verifDir, "sim/harness/*"))
 		for _, f := range hsrc {
 			if b, err := os.ReadFile(f); err == nil {
@@ -512,35 +517,36 @@ func baseSeed() uint64 {
 }
 
 type agg struct {
-	mu            sync.Mutex
-	runs          int
-	execs         int
-	verdicts      map[string]int
-	classes       map[string]int
-	hashes        map[uint64]struct{}
-	schedules     map[uint64]struct{}
-	sketch        map[uint64]struct{}
-	strategies    map[string]int
-	faults        map[string]int
-	probes        map[string]int
-	extra         map[string]int64
-	ticks         int64
-	switches      int64
-	fakeNs        int64
-	lockWaits     int64
-	realBlocks    int64
-	uninstr       int64
-	selects       int64
-	mapRanges     int64
-	mapUnc        int64
-	maxReady      int
-	samples       []json.RawMessage
-	violations    []runLine
-	harnessErr    []runLine
-	wallUs        int64
-	canary        map[int][3]uint64
-	rejected      int
-	firstRejected string
+	mu                sync.Mutex
+	runs              int
+	execs             int
+	verdicts          map[string]int
+	classes           map[string]int
+	firstInconclusive string
+	hashes            map[uint64]struct{}
+	schedules         map[uint64]struct{}
+	sketch            map[uint64]struct{}
+	strategies        map[string]int
+	faults            map[string]int
+	probes            map[string]int
+	extra             map[string]int64
+	ticks             int64
+	switches          int64
+	fakeNs            int64
+	lockWaits         int64
+	realBlocks        int64
+	uninstr           int64
+	selects           int64
+	mapRanges         int64
+	mapUnc            int64
+	maxReady          int
+	samples           []json.RawMessage
+	violations        []runLine
+	harnessErr        []runLine
+	wallUs            int64
+	canary            map[int][3]uint64
+	rejected          int
+	firstRejected     string
 }
 
 func newAgg() *agg {
@@ -616,6 +622,10 @@ func (a *agg) addFile(path string) (recycleNext int, ok bool) {
 			}
 		}
 		switch v.Verdict {
+		case "inconclusive":
+			if a.firstInconclusive == "" {
+				a.firstInconclusive = v.Class + ": " + firstLines(v.Detail, 60)
+			}
 		case "violation":
 			a.violations = append(a.violations, l)
 		case "harness_error":
@@ -908,6 +918,7 @@ func runCheck(prop, tier string, budgetMs, nWorkers int) int {
 		"reach_probes":            a.probes,
 		"verdicts":                a.verdicts,
 		"classes":                 a.classes,
+		"first_inconclusive":      a.firstInconclusive,
 		"engine_counters":         a.extra,
 		"known_findings_seen":     knownSeen,
 		"worker_deaths":           len(deaths),
